@@ -386,6 +386,13 @@ func runCase(d caseDesc, abandonBound time.Duration) (problem string, inconclusi
 	return "", false
 }
 
+func minInt(a, b int) int {
+	if a < b {
+		return a
+	}
+	return b
+}
+
 func describe(d caseDesc) []string {
 	labels := []string{fmt.Sprintf("ups:%d", len(d.Ups)), "forward:" + d.Forward, "loss:" + d.Loss, fmt.Sprintf("k:%d", d.K)}
 	for _, u := range d.Ups {
@@ -431,6 +438,16 @@ func TestPolicy(t *testing.T) {
 		}
 		vlib.Tap.Reset()
 		problem, inconclusive := runCase(d, 15*time.Second)
+		if problem != "" && !inconclusive {
+			// The policy model is deterministic, a loaded machine is not (a UDP/KCP handshake that times out makes the
+			// client fail over, legitimately). A deviation counts only when it shows again on fresh endpoints.
+			first := problem
+			problem, inconclusive = runCase(d, 15*time.Second)
+			if problem == "" && !inconclusive {
+				vlib.Rec.Inconclusive("not-reproduced: " + first[:minInt(80, len(first))])
+				return
+			}
+		}
 		if inconclusive {
 			vlib.Rec.Inconclusive("setup")
 			return
